@@ -164,6 +164,17 @@ CHECKS["C16"] = dict(
     design_ref="DESIGN.md 4 C16",
 )
 
+CHECKS["C05"] = dict(
+    technique="symbolic interpretation of the codec's source (AST -> z3 strings/ints, unbounded string length) with SMT lemmas about CPython; solver-driven enumeration through the real csv module for short strings",
+    text="The source of Point._serialize_to_list/_deserialize_from_list is interpreted symbolically for every row shape up to 2 tags x 2 fields "
+    "(thorough 3 x 3), both prefix styles, field values None | abstract double | symbolic int: decode(encode(p)) == p is refuted or "
+    "proved unsat for strings of ANY length in measurement, tag keys, tag values, field keys (injectivity follows). The translator is "
+    "validated against CPython on concrete points every run; lemmas L-int-float / L-repr-lang are discharged by z3. The C csv "
+    "layer is exercised with all strings up to length 2 (3) over a 12-character alphabet in each slot x 4 dialects via real files.",
+    design_ref="DESIGN.md 1 E2, E3, 4 C05",
+    note="trusted: z3 sequence/regex theories, vf.pysym translator, CPython facts float(repr(x)) == x and fromisoformat(isoformat(t)) == t (sampled each run). Two open known findings are excluded by assuming their negation.",
+)
+
 NOT_YET = {}
 
 
